@@ -18,6 +18,11 @@ ASSUMPTIONS = ["RFC 7797 JSON serialization carries JSON-string payloads only, s
 PATHS = ["compact", "flattened", "general", "7797-compact", "7797-flattened"]
 
 
+# a header of realistic size for tokens that carry a certificate chain and a URL-shaped kid (about 3 KB of JSON)
+LONG_HEADER = {"x5c": [b64.enc(bytes((i * 7 + j) % 256 for i in range(900))).replace("-", "+").replace("_", "/") + "==" * 0 for j in range(2)],
+               "jku": "https://keys.example.com/tenants/" + "a1b2c3d4-" * 60 + "/current.jwks", "typ": "JOSE"}
+
+
 def payloads():
     return A.payload_classes(full=config.thorough())
 
@@ -159,6 +164,22 @@ def run_case(ctx, alg, kind, path, how, form, verify_with, placement, extras, pn
             vs.append(viol(f"reference recovers a different payload: {tag}", f"{p2[:40]!r}"))
     except (RefError, ValueError, KeyError) as e:
         vs.append(viol(f"independent verifier rejects joserfc's token: {tag}", f"{ctxs}: {e!r} token={str(token)[:300]}"))
+    # ---- the two-step API on a batch: extract this token, extract an unrelated one, then validate this one
+    if path in ("compact", "7797-compact") and isinstance(token, str) and detached_payload is None:
+        from joserfc import jws, rfc7797
+
+        def two_step():
+            obj = jws.extract_compact(token.encode()) if path == "compact" else None
+            other = jws.serialize_compact({"alg": "HS256"}, b"an unrelated token", A.jkey(scen.key("oct32", 3), "dict"), algorithms=["HS256"])
+            jws.extract_compact(other.encode())
+            if path != "compact":
+                return rfc7797.deserialize_compact(token, vpub, algorithms=[alg]).payload
+            if jws.validate_compact(obj, vpub, algorithms=[alg]) is not True:
+                raise ValueError("validate_compact did not return True")
+            return obj.payload
+        t2 = call(two_step)
+        if not t2.ok or bytes(t2.value) != payload:
+            vs.append(viol(f"extract, extract another token, then validate: own output does not verify: {tag}", f"{ctxs}: {t2.exc!r}"))
     # ---- detach / restore
     if path in ("compact", "flattened", "general"):
         from joserfc import jws
@@ -194,8 +215,10 @@ def h_roundtrip(ctx):
     form = ctx.choose("key_form", ["key", "set1", "set3", "callable-key", "callable-set"])
     verify_with = ctx.choose("verify_with", ["public"] if kty_oct else ["public", "private"])
     placement = ctx.choose("placement", ["protected"] if path in ("compact", "7797-compact") else ["protected", "unprotected-alg", "split", "empty-protected"])
-    extras = ctx.choose("extras", [None, {"typ": "JOSE", "cty": 'a"b\\c/é\u0001'}])
+    extras = ctx.choose("extras", [None, {"typ": "JOSE", "cty": 'a"b\\c/é\u0001'}, LONG_HEADER])
     pls = payloads()
+    if extras is LONG_HEADER:
+        pls = [x for x in pls if x[0] in ("json", "urlsafe")]
     if path == "7797-flattened":
         pls = [(n, p) for n, p in pls if _is_utf8(p)]
     pname, payload = ctx.choose("payload", pls)
